@@ -1308,6 +1308,13 @@ def mask_select(ex, st, a, m, node):
     if mkey in st.memo and not ex.binder_vars:
         return st.memo[mkey][0]
     r = ex.new_seq(st, a.t.elem, c, lambda jj: aa[pos(m.z, jj)], a.t.kind, "sel")
+    # the same fact seen from the source side (so that a goal about a[i] reaches the selection by e-matching):
+    # a masked element a[i] is the element number rank(i) of the selection
+    ra = r.t.arr(r.z)
+    ex.assume(st, z3.ForAll([i], z3.Implies(z3.And(0 <= i, i < n, ma[i]),
+                                            z3.And(0 <= rank(m.z, i), rank(m.z, i) < c,
+                                                   ra[rank(m.z, i)] == aa[i])),
+                            patterns=[aa[i]]))
     if not ex.binder_vars:
         st.memo[mkey] = (r, a.z, m.z)
     return r
